@@ -444,7 +444,7 @@ def run(ctx):
             k = (ctx.shard + attempts % 2) % len(KNOBS)
             zoo, tpl = zoo_for(k)
             fams = rng.sample(R.FAMILIES, rng.randint(1, 3))
-            nested = attempts % 3 == 0
+            nested = attempts % 3 == 1   # the first history of every shard runs inside a SAVEPOINT
             g = generate(ctx, R, zoo, tpl, rng, fams, nested)
             if g is None:
                 continue
